@@ -64,6 +64,13 @@ type Ext struct {
 	Path  string // import path suffix under the module, e.g. "extlib" or "a/util"
 	Name  string // package name
 	Alias string `json:",omitempty"` // import alias used in the user files ("" = none)
+	Vars  []ExtVar `json:",omitempty"` // exported package-level variables (wire.Value operands)
+}
+
+type ExtVar struct {
+	Name string
+	Type TypeID
+	H    uint32
 }
 
 type Prov struct {
